@@ -63,3 +63,15 @@ Definition wf_event (e : hevent) : bool :=
   end.
 
 Definition Known_C10_7 (evs : list hevent) : bool := existsb (fun e => negb (wf_event e)) evs.
+
+(* the disconnect reason does not allow helper mode for this session: the peer is
+   admin-down, or GR was negotiated and the reason is not eligible (hard reset,
+   non-Cease error, NOTIFICATION / hold-timer expiry without the N bit), or GR was
+   not negotiated and the reason is anything but a TCP failure (LLGR alone follows
+   the same rule as GR) *)
+Definition not_eligible (h : hstate) (s : session) (r : reason) : bool :=
+  h_admin_down h ||
+  match s_gr s with
+  | Some (_, _, nbit) => negb (gr_applies r nbit)
+  | None => match r with RsTcp => false | _ => true end
+  end.
